@@ -16,6 +16,7 @@ func checkC13(w *World, r *Report, tier string) propMeta {
 	c13R2R3R4(w, r)
 	c13R5(w, r)
 	c14R3(w, r, "C13.R6")
+	c06R5(w, r) // no Write/Close/CreateFile/OpenFile/Update error on the merge path is dropped: a swallowed failure would commit a partial output
 	return propMeta{
 		explanation: "Merge's commit protocol as path rules over executeMergeGroup, merge and Merge: (R1) a group's output pointer is returned only after footer-ok and Close-ok, and every failure return after CreateFile-ok passes abortFileWriter (C06.R2 covers the same exits); (R2) MetaStore.Update is unreachable from any failed group and Close-ok dominates the commit through R1; on a failed group the earlier outputs are tombstoned before the error return; (R3) a source pointer (DeleteOperation) is tombstoned only after Update-ok, an output pointer (WriteOperation) only after a failure edge and only on paths that return a non-nil error; (R4) every failure edge (iterator collection, group, Update) returns (nil, provably non-nil error), the stats return is unreachable from them, and the ErrPostCommitCleanup wrap is built only after Update-ok from a non-empty tombstone-error list; (R5) merge runs only under mergeMu.TryLock's true edge with Unlock deferred and the false edge returns ErrMergeInProgress; (R6) atomicity of the shipped stores' Update (known finding F1 for FileSystemDataStore).",
 		notDecided:  "The fault enumeration itself (which store call fails when); concurrency of Merge with queries (C14).",
